@@ -4,6 +4,9 @@ a  the two conversion chains are mirror images with inverse partners (stage trac
 b  the 4 <-> 6 packing and every slot table denote one layout
 c  a section point is lifted onto the requested energy level and section (residual = Re H(state) - h0, right slots)
 d  restriction to the centre manifold zeroes exactly the monomials containing q1 or p1
+
+a-series  the series the chains request realise H_cm = H o Phi and invert each other (C08.b/c for the partial normal form, re-filed)
+a-cache   anything cached from the degree-dependent pipeline is keyed on / invalidated with the degree (C20.b/e on the CM service)
 """
 from __future__ import annotations
 
